@@ -1461,6 +1461,10 @@ const BOUND_EXPRS: &[(&str, &str)] = &[
     ("big64", "18446744073709551616"), ("min1", "[3, 1]|min"), ("sum2", "[1, 1]|sum"), ("count3", "'abc'|count"), ("first2", "[2]|first"),
     ("nsattr", "namespace(a=2).a"), ("negvar", "-two"), ("varu", "two_u64"), ("var128", "three_i128"), ("varu128", "one_u128"),
     ("cond", "2 if true else 0"), ("float2", "2.0"), ("floatneg1", "-1.0"), ("sumf", "[1.0, 1.0]|sum"), ("divf", "4 / 2"),
+    // bounds that contain subscripts, slices and colons of their own (the parser's slice detection)
+    ("mapsub", "{'a': 2}['a']"), ("mapint", "{1: 2}[1]"), ("listsub", "[5, 2][1]"), ("negsub", "[1, -2][-1]"),
+    ("slicesub", "[0, 1, 2, 3][1:][1]"), ("slicelen", "'abc'[1:]|length"), ("ternslice", "[0, 3][1:][0] if lv[:1] else 0"),
+    ("callsub", "range(5)[::2][1]"),
 ];
 
 fn bound_expr(id: &str) -> &'static str {
